@@ -111,9 +111,9 @@ theorem fuzzyRound_of_isInt {x : Rat} (h : isInt x = true) : fuzzyRound x = x :=
 theorem roundI_intCast (n : Int) : roundI (n : Rat) = n := by
   unfold roundI
   split
-  · apply floor_eq <;> simp <;> grind
+  · apply floor_eq <;> (try simp) <;> grind
   · have : (-(n:Rat) + 1/2).floor = -n := by
-      apply floor_eq <;> simp <;> grind
+      apply floor_eq <;> (try simp) <;> grind
     rw [this]; omega
 
 theorem roundQ_of_isInt {x : Rat} (h : isInt x = true) : roundQ x = x := by
@@ -129,7 +129,7 @@ theorem sassMod_bounds (a : Rat) : 0 ≤ sassMod a 360 ∧ sassMod a 360 < 360 :
 theorem sassMod_id {a : Rat} (h0 : 0 ≤ a) (h1 : a < 360) : sassMod a 360 = a := by
   unfold sassMod
   have : (a / 360).floor = 0 := by
-    apply floor_eq <;> simp <;> grind
-  rw [this]; simp
+    apply floor_eq <;> (try simp) <;> grind
+  rw [this]; simp; grind
 
 end Grass.Color
